@@ -69,11 +69,11 @@ func (u *useGen) argExpr(a, loopVar string) *tw.Expr {
 	if u.env.Model["n"].K == refint.KInt && rapid.IntRange(0, 2).Draw(u.rt, "argFromNamesake") == 0 {
 		switch a {
 		case "n":
-			return rapid.SampledFrom([]*tw.Expr{tw.Bin("+", tw.Var("n"), intLit(1)), tw.Call(tw.Var("s"), "len"), tw.Tern(tw.Var("flag"), intLit(1), tw.Var("n"))}).Draw(u.rt, "argNNamesake")
+			return rapid.SampledFrom([]*tw.Expr{tw.Bin("+", tw.Var("n"), intLit(1)), tw.Call(tw.Var("s"), "len"), tw.Tern(tw.Var("flag"), intLit(1), tw.Var("n")), tw.Var("n"), tw.Var("n")}).Draw(u.rt, "argNNamesake")
 		case "s":
-			return rapid.SampledFrom([]*tw.Expr{tw.Call(tw.Var("n"), "str"), tw.Bin("+", tw.Var("s"), tw.Str("!")), tw.Tern(tw.Var("flag"), tw.Str("yes"), tw.Var("s"))}).Draw(u.rt, "argSNamesake")
+			return rapid.SampledFrom([]*tw.Expr{tw.Call(tw.Var("n"), "str"), tw.Bin("+", tw.Var("s"), tw.Str("!")), tw.Tern(tw.Var("flag"), tw.Str("yes"), tw.Var("s")), tw.Var("s"), tw.Var("s")}).Draw(u.rt, "argSNamesake")
 		default:
-			return rapid.SampledFrom([]*tw.Expr{tw.Un(tw.ENot, tw.Var("flag")), tw.Bin(">", tw.Var("n"), intLit(0)), tw.Bin("==", tw.Var("s"), tw.Str("zz"))}).Draw(u.rt, "argFlagNamesake")
+			return rapid.SampledFrom([]*tw.Expr{tw.Un(tw.ENot, tw.Var("flag")), tw.Bin(">", tw.Var("n"), intLit(0)), tw.Bin("==", tw.Var("s"), tw.Str("zz")), tw.Var("flag"), tw.Var("flag")}).Draw(u.rt, "argFlagNamesake")
 		}
 	}
 	switch a {
